@@ -96,3 +96,29 @@ int strcmp(const char *a, const char *b) {
   __CPROVER_precondition(__CPROVER_r_ok(b, 1), "strcmp: second string readable");
   return __CPROVER_uninterpreted_cqv_strcmp(a, b);
 }
+
+/* realloc model.  CBMC's own model copies the whole (symbolic-size) object and exhausts memory.
+ * This one returns NULL (possible under --malloc-may-fail) or a new object of n bytes whose
+ * contents are ARBITRARY except inside the windows a harness registered beforehand (ghost
+ * positions whose preservation it wants to observe); the old object is freed.  This is weaker
+ * than the real realloc, i.e. an over-approximation. */
+struct cqv_keep_s { const void *obj; size_t off; size_t len; } cqv_keep[5];
+typedef struct { unsigned char b[80]; } cqv_blk80;
+void *realloc(void *p, size_t n) {
+  if (!p) return malloc(n);
+  __CPROVER_precondition(__CPROVER_DYNAMIC_OBJECT(p) && __CPROVER_POINTER_OFFSET(p) == 0, "realloc: pointer from malloc");
+  size_t old = __CPROVER_OBJECT_SIZE(p);
+  unsigned char *q = malloc(n);
+  if (!q) return NULL;
+  for (int w = 0; w < 5; w++) {
+    if (cqv_keep[w].obj == p && cqv_keep[w].off + cqv_keep[w].len <= old && cqv_keep[w].off + cqv_keep[w].len <= n) {
+      const unsigned char *src = (const unsigned char *)p + cqv_keep[w].off;
+      unsigned char *dst = q + cqv_keep[w].off;
+      if (cqv_keep[w].len == 80) *(cqv_blk80 *)dst = *(const cqv_blk80 *)src;
+      else if (cqv_keep[w].len == 4) *(uint32_t *)dst = *(const uint32_t *)src;
+      else if (cqv_keep[w].len == 2) *(uint16_t *)dst = *(const uint16_t *)src;
+    }
+  }
+  free(p);
+  return q;
+}
